@@ -8,8 +8,10 @@ import (
 )
 
 type userFunction struct {
-	Parameters []*ast.Identifier
-	Block      *ast.BlockStatement
+	// (unexported: the nodes are the parsed template's own, and a template
+	// must not get at them through the function value)
+	parameters []*ast.Identifier
+	block      *ast.BlockStatement
 	program    *ast.Program // the template the function was written in
 }
 
@@ -17,7 +19,7 @@ func (f *userFunction) String() string {
 	var out bytes.Buffer
 
 	params := []string{}
-	for _, p := range f.Parameters {
+	for _, p := range f.parameters {
 		params = append(params, p.String())
 	}
 
@@ -25,7 +27,7 @@ func (f *userFunction) String() string {
 	out.WriteString("(")
 	out.WriteString(strings.Join(params, ", "))
 	out.WriteString(") {\n")
-	out.WriteString(f.Block.String())
+	out.WriteString(f.block.String())
 	out.WriteString("\n}")
 
 	return out.String()
